@@ -189,11 +189,11 @@ CheckSqrtMod(ev) ==
   IF ev.exc = "" THEN (IF Len(ev.out) = 1 /\ ev.out[1] \in 0..p - 1 /\ (ev.out[1] * ev.out[1]) % p = a % p THEN OK
                        ELSE R("V", "sqrtmod:not-a-root", p))
   ELSE IF p <= 4096 /\ \E r \in 0..p - 1 : (r * r) % p = a % p THEN R("D", "sqrtmod:missed-root", p) ELSE OK
-\* x = xi in Z[sqrt2]; a returned t in Z[omega] must satisfy t^+ t = xi;  z = <<1>> when a solution is known to exist
+\* x = xi in Z[sqrt2]; a returned t in Z[omega] must satisfy t^+ t = xi;  z = a witness solution when the driver knows one
 CheckDioph(ev) ==
   IF ev.exc = "" THEN (IF Len(ev.out) = 4 /\ OmMul(OmConjV(ev.out), ev.out) = S2ToOmV(ev.x) THEN OK
                        ELSE R("V", "diophantine:returned-solution-does-not-satisfy-equation", 0))
-  ELSE IF ev.exc = "None" THEN (IF ev.z = <<1>> THEN R("D", "diophantine:missed-solution", 0) ELSE OK)
+  ELSE IF ev.exc = "None" THEN (IF Len(ev.z) = 4 /\ OmMul(OmConjV(ev.z), ev.z) = S2ToOmV(ev.x) THEN R("D", "diophantine:missed-solution", 0) ELSE OK)
   ELSE R("D", "diophantine:exception-" \o ev.exc, 0)
 \* x = <<n, R>>: out = prime factors
 CheckFactor(ev) ==
